@@ -230,12 +230,15 @@ func (w *world) bandOp(r *sim.Rand) {
 		sb := r.Intn(9) // 8 = no 125 kHz channel at all
 		for j := 0; j < n; j++ {
 			on := (sb < 8 && (j/8 == sb || j == 64+sb)) || (sb == 8 && j >= 64 && r.Intn(2) == 0)
+			var err error
 			if on {
-				w.b.EnableUplinkChannelIndex(j)
+				err = w.b.EnableUplinkChannelIndex(j)
 			} else {
-				w.b.DisableUplinkChannelIndex(j)
+				err = w.b.DisableUplinkChannelIndex(j)
 			}
-			w.m.Chans[j].Enabled = on
+			if err == nil { // (whether the band takes an operation is not judged: the model follows its answer)
+				w.m.Chans[j].Enabled = on
+			}
 		}
 		simrt.Count(cSubBand)
 		simrt.Trace(evOp, 6, uint64(sb))
@@ -272,8 +275,9 @@ func (w *world) bandOp(r *sim.Rand) {
 		if w.m.Kind != spec.PlanDynamic && r.Intn(2) == 0 {
 			base := 8 * r.Intn(n/8)
 			for j := base; j < base+8 && j < n; j++ {
-				w.b.DisableUplinkChannelIndex(j)
-				w.m.Chans[j].Enabled = false
+				if w.b.DisableUplinkChannelIndex(j) == nil {
+					w.m.Chans[j].Enabled = false
+				}
 			}
 			simrt.Trace(evOp, 4, uint64(base))
 			return
@@ -289,8 +293,9 @@ func (w *world) bandOp(r *sim.Rand) {
 		if w.m.Kind != spec.PlanDynamic && r.Intn(2) == 0 {
 			base := 8 * r.Intn(n/8)
 			for j := base; j < base+8 && j < n; j++ {
-				w.b.EnableUplinkChannelIndex(j)
-				w.m.Chans[j].Enabled = true
+				if w.b.EnableUplinkChannelIndex(j) == nil {
+					w.m.Chans[j].Enabled = true
+				}
 			}
 			simrt.Trace(evOp, 5, uint64(base))
 			return
@@ -352,10 +357,32 @@ func (w *world) judge(dev []int, label string) []lorawan.LinkADRReqPayload {
 		return nil
 	}
 	if !spec.EqualInts(arg, dev) {
-		simrt.Report("a1.input-modified:"+w.name, fmt.Sprintf("%s (%s): the planner changed the device list it was given from %v to %v", w.name, label, dev, arg))
+		// a planner may put the list it was given in order; it may not change
+		// WHICH channels the caller's list names
+		a, d := append([]int(nil), arg...), append([]int(nil), dev...)
+		sortInts(a)
+		sortInts(d)
+		if !spec.EqualInts(dedup(a), dedup(d)) {
+			simrt.Report("a1.input-modified:"+w.name, fmt.Sprintf("%s (%s): the planner changed the device list it was given from %v to %v", w.name, label, dev, arg))
+		} else {
+			simrt.Count(cNotJudged)
+		}
 		ownerWriteCopy(arg, dev)
 	}
 	target := w.m.Target(dev)
+	// a list that names a channel twice is not a set, and a channel beyond the
+	// plan is nothing the band ever had: both are handed over (a crash is a
+	// crash), but for the first only the count bound and encodability are
+	// judged, and for the second the band's own apply function may refuse
+	sortedDev := append([]int(nil), dev...)
+	sortInts(sortedDev)
+	isSet := len(dedup(sortedDev)) == len(dev)
+	beyond := false
+	for _, c := range dev {
+		if c >= len(w.m.Chans) {
+			beyond = true
+		}
+	}
 	// A1: the band's own apply function
 	var got []int
 	var err error
@@ -374,7 +401,11 @@ func (w *world) judge(dev []int, label string) []lorawan.LinkADRReqPayload {
 	got = append([]int(nil), got...)
 	sortInts(got)
 	got = dedup(got)
-	if err != nil {
+	if !isSet {
+		simrt.Count(cNotJudged)
+	} else if err != nil && beyond {
+		simrt.Count(cNotJudged)
+	} else if err != nil {
 		simrt.Report("a1.apply-error:"+w.name, fmt.Sprintf("%s (%s): applying the generated payloads %+v to device set %v fails: %v", w.name, label, pls, dev, err))
 	} else if !spec.EqualInts(got, target) {
 		simrt.Report("a1.target:"+w.name, fmt.Sprintf("%s (%s): device %v + payloads %+v -> %v, but the network's enabled channels restricted to what the device knows are %v (network enabled %v, custom %v)", w.name, label, dev, pls, got, target, w.m.EnabledIdx(), w.m.CustomIdx()))
@@ -393,7 +424,7 @@ func (w *world) judge(dev []int, label string) []lorawan.LinkADRReqPayload {
 			}
 		}
 	}
-	if res, ok := spec.ApplyLinkADR(w.m.Kind, dev, toSpec(pls)); !ok || !modelled {
+	if res, ok := spec.ApplyLinkADR(w.m.Kind, dev, toSpec(pls)); !ok || !modelled || !isSet {
 		simrt.Count(cNotModelled) // a ChMaskCntl value the device model does not implement: A1 alone judges
 	} else if !spec.EqualInts(res, target) {
 		simrt.Report("a2.target:"+w.name, fmt.Sprintf("%s (%s): a device with %v processing %+v ends with %v, target is %v (network enabled %v, custom %v)", w.name, label, dev, pls, res, target, w.m.EnabledIdx(), w.m.CustomIdx()))
@@ -413,7 +444,7 @@ func (w *world) judge(dev []int, label string) []lorawan.LinkADRReqPayload {
 	sortInts(sorted)
 	if spec.EqualInts(dedup(sorted), target) {
 		simrt.Count(cEmptyPlan)
-		if len(pls) != 0 {
+		if len(pls) != 0 && isSet {
 			simrt.Report("a4.not-empty:"+w.name, fmt.Sprintf("%s (%s): device %v already matches the target but %d payloads were generated: %+v", w.name, label, dev, len(pls), pls))
 		}
 	}
@@ -527,7 +558,20 @@ func (w *world) foreignApply(r *sim.Rand, dev []int) {
 		}
 		pls = append(pls, p)
 	}
-	sim.Guard("panic.apply-foreign", func() { w.b.GetEnabledUplinkChannelIndicesForLinkADRReqPayloads(dev, pls) })
+	// (what the apply function does with payloads the band did not generate is
+	// not in the statement - also not whether it survives them; what matters
+	// is that the band plans correctly afterwards)
+	func() {
+		defer func() {
+			if r := recover(); r != nil {
+				if _, ok := r.(simrt.StepCapPanic); ok {
+					panic(r)
+				}
+				simrt.Count(cNotJudged)
+			}
+		}()
+		w.b.GetEnabledUplinkChannelIndicesForLinkADRReqPayloads(dev, pls)
+	}()
 }
 
 func netServer(w *world, nSteps int, sub uint64) {
@@ -749,7 +793,7 @@ func device(w *world, sub uint64) {
 		var block []spec.LinkADR
 		for _, c := range cmds {
 			if c.CID != 0x03 || len(c.F) != 5 {
-				simrt.Report("a3.roundtrip", fmt.Sprintf("a generated LinkADRReq came back from the wire as %v", c))
+				simrt.Count(cNotJudged) // (how a LinkADRReq survives the wire is C07's and C05's subject)
 				continue
 			}
 			var l spec.LinkADR
@@ -760,7 +804,8 @@ func device(w *world, sub uint64) {
 			block = append(block, l)
 		}
 		if dm.block != nil && fmt.Sprint(block) != fmt.Sprint(dm.block) {
-			simrt.Report("a3.roundtrip", fmt.Sprintf("%s: LinkADRReq block %v came back from the wire as %v", w.name, dm.block, block))
+			simrt.Count(cNotJudged) // (the wire trip of a block is C07's / C05's subject; C14 asks for encodability, judged where the plan is made)
+			block = dm.block
 		}
 		res, okA := spec.ApplyLinkADR(w.m.Kind, actual, block)
 		simrt.Trace(evDev, uint64(len(block)), uint64(len(res)))
